@@ -167,7 +167,18 @@ func alertStatusReportRule(o *Ob) {
 	for _, ret := range (&Walk{Fn: pa}).FromEntry().Returns() {
 		o.Check(e.X(pa, ret.Results[0]) == ps, "predict-return", "predictAlertStatus must return the status it read", ret)
 	}
-	af := o.Fn("(*am/api/v2.API).alertFilter$1")
+	// the predicate that looks at the status (alertFilter may hand out others for callers that keep every state)
+	var af *ssa.Function
+	for _, f := range alertFilterClosures(o) {
+		for _, in := range AllInstrs(f) {
+			if c, ok := in.(*ssa.Call); ok && !c.Call.IsInvoke() && strings.HasSuffix(e.X(f, c.Call.Value), "recv.setAlertStatus") {
+				af = f
+			}
+		}
+	}
+	if !o.Check(af != nil, "filter-status-predicate", "no alert predicate runs the mute callback any more", nil) {
+		return
+	}
 	fs := predicted(af, "^recv.setAlertStatus", "p0.Alert")
 	if fs != "" {
 		// the filter decides on the alert's own status
